@@ -2,6 +2,7 @@ package checks
 
 import (
 	"fmt"
+	"github.com/jsightapi/jsight-api-go-library/directive"
 	"os"
 	"path/filepath"
 	"strings"
@@ -140,7 +141,7 @@ func injectFaults(fresh func() []*doc.Node, emit func(f fault)) {
 					orig, par := idxOf(t, k)
 					cp := orig.Clone()
 					if atEnd {
-						if par.Kids[len(par.Kids)-1] == orig {
+						if par.Kids[len(par.Kids)-1] == orig || adopts(par.Kids[len(par.Kids)-1], cp) {
 							continue
 						}
 						par.Kids = append(par.Kids, cp)
@@ -155,6 +156,31 @@ func injectFaults(fresh func() []*doc.Node, emit func(f fault)) {
 						par.Kids = kids
 					}
 					emit(fault{kind: "second-" + kw + "-in-" + kindOf(host), nodes: t, culprits: []*doc.Node{orig, cp, par}, injected: cp, parent: par})
+				}
+				// the second one need not be a copy: a different, in itself valid, instance
+				for _, atEnd := range []bool{false, true} {
+					t := fresh()
+					orig, par := idxOf(t, k)
+					v := singletonVariant(orig, par, doc.Text(t))
+					if v == nil {
+						continue
+					}
+					if atEnd {
+						if par.Kids[len(par.Kids)-1] == orig || adopts(par.Kids[len(par.Kids)-1], v) {
+							continue
+						}
+						par.Kids = append(par.Kids, v)
+					} else {
+						var kids []*doc.Node
+						for _, x := range par.Kids {
+							kids = append(kids, x)
+							if x == orig {
+								kids = append(kids, v)
+							}
+						}
+						par.Kids = kids
+					}
+					emit(fault{kind: "second-" + kw + "-variant-in-" + kindOf(host), nodes: t, culprits: []*doc.Node{orig, v, par}, injected: v, parent: par})
 				}
 			}
 		}
@@ -521,4 +547,58 @@ func macroContext(nodes []*doc.Node, culprits []*doc.Node) (dead bool, chain []*
 	}
 	_ = anyLive
 	return false, chain
+}
+
+// singletonVariant builds a second, different instance of a singleton child (nil if none is defined).
+func singletonVariant(orig, par *doc.Node, whole string) *doc.Node {
+	switch orig.Kw {
+	case "Title":
+		return doc.N("Title", "\"Another title\"")
+	case "Version":
+		return doc.N("Version", "9.9")
+	case "Description":
+		return doc.N("Description").WithBody("another text")
+	case "Query":
+		return doc.N("Query").WithBody("{\n  \"another\": 2\n}")
+	case "Headers":
+		return doc.N("Headers").WithBody("{\n  \"X-Another\": \"v\"\n}")
+	case "Body":
+		return doc.N("Body", "any")
+	case "Path":
+		// a parameter of the enclosing path that the first Path does not declare
+		if len(par.Params) == 0 {
+			return nil
+		}
+		pp, _ := refPathParams(par.Params[0])
+		for _, p := range pp {
+			if !strings.Contains(whole, "\""+p.name+"\":") { // declared nowhere in the document
+				return doc.N("Path").WithBody("{\n  \"" + p.name + "\": 7\n}")
+			}
+		}
+	}
+	return nil
+}
+
+// adopts reports whether a directive written after prev (the last child so far) would become a
+// child of prev, or of prev's own last descendants, instead of a sibling: prev is not
+// parenthesised and its kind, or the kind of one of the last directives below it, admits x
+// (the library's public admissibility table).
+func adopts(prev, x *doc.Node) bool {
+	xt, err := directive.NewDirectiveType(x.Kw)
+	if err != nil {
+		return false
+	}
+	for n := prev; n != nil; {
+		if n.Paren {
+			return false
+		}
+		if nt, err := directive.NewDirectiveType(n.Kw); err == nil && nt.IsAllowedForDirectiveContext(xt) {
+			return true
+		}
+		if len(n.Kids) == 0 {
+			return false
+		}
+		n = n.Kids[len(n.Kids)-1]
+	}
+	return false
 }
